@@ -15,13 +15,18 @@ pub enum Ev {
     Follow(usize), // the followed command getter now returns TARGETS[i]
 }
 pub const STATES: [(f32, f32, f32); 2] = [(1.0, -2.0, 0.5), (-4.0, 3.0, 2.0)];
-pub const TARGETS: [Command; 6] = [
+pub const NT: usize = 9;
+pub const TARGETS: [Command; NT] = [
     Command::Position(3.0),
     Command::Position(-1.0),
     Command::Velocity(3.0),
     Command::Velocity(-1.0),
     Command::Acceleration(3.0),
     Command::Acceleration(-1.0),
+    // one f32 ulp away from the first value of each kind: a *different* command
+    Command::Position(3.000_000_2),
+    Command::Velocity(3.000_000_2),
+    Command::Acceleration(3.000_000_2),
 ];
 pub fn kvals() -> PositionDerivativeDependentPIDKValues {
     PositionDerivativeDependentPIDKValues::new(PIDKValues::new(2.0, 0.5, 0.25), PIDKValues::new(1.0, 0.25, 0.5), PIDKValues::new(0.5, 1.0, 2.0))
@@ -317,11 +322,11 @@ pub fn check_history(init: Command, follow: bool, h: &[Ev], e: &mut Eng, meta: b
 
 pub fn syms(follow: bool) -> Vec<Ev> {
     let mut v = vec![Ev::P(S / 2, 0), Ev::P(S / 2, 1), Ev::P(2 * S, 0), Ev::P(2 * S, 1), Ev::N(S), Ev::Er(S)];
-    for i in 0..6 {
+    for i in 0..NT {
         v.push(Ev::Set(i));
     }
     if follow {
-        for i in 0..6 {
+        for i in 0..NT {
             v.push(Ev::Follow(i));
         }
     }
@@ -335,8 +340,8 @@ pub fn run(ctx: &Ctx) -> Vec<Eng> {
     let s0 = syms(false);
     let mut e1 = Eng::new(
         "c11-seqs-set",
-        "all histories of exactly `depth` events over {P(dt,state): dt in {0.5,2}s x 2 dyadic states, N, E1, set(c) for 6 commands (2 values x 3 kinds; equal to the current one or not)} x 3 initial command kinds, gains distinct per kind; after every event get() must equal the staged reference (PID law on the error of the commanded component; output / its trapezoid integral / its double integral by kind; absent for the first 0/1/2 samples after a start or reset; set(same) changes nothing; set(different) => absent and restart; N resets; E reported until the next present sample which starts afresh), bit-exact; shift invariance; non-trivial = three or more samples since the last reset",
-        &format!("depth {} => 12^{} histories x 3 initial kinds", depth, depth),
+        "all histories of exactly `depth` events over {P(dt,state): dt in {0.5,2}s x 2 dyadic states, N, E1, set(c) for 9 commands (2 values x 3 kinds plus, per kind, a value one f32 ulp away from the first; equal to the current one or not)} x 3 initial command kinds, gains distinct per kind; after every event get() must equal the staged reference (PID law on the error of the commanded component; output / its trapezoid integral / its double integral by kind; absent for the first 0/1/2 samples after a start or reset; set(same) changes nothing; set(different) => absent and restart; N resets; E reported until the next present sample which starts afresh), bit-exact; shift invariance; non-trivial = three or more samples since the last reset",
+        &format!("depth {} => 15^{} histories x 3 initial kinds", depth, depth),
     );
     for init in inits {
         par_seqs(&mut e1, s0.len(), depth, budget, |seq, e| {
@@ -346,12 +351,12 @@ pub fn run(ctx: &Ctx) -> Vec<Eng> {
             a
         });
     }
-    let fdepth = if ctx.thorough { 6 } else { 5 };
+    let fdepth = if ctx.thorough { 5 } else { 4 };
     let s1 = syms(true);
     let mut e2 = Eng::new(
         "c11-seqs-follow",
         "same with the controller following a scripted command getter: alphabet extended by 'followed command changes to c' (6 commands); the change arrives through update_following_data at the next update",
-        &format!("depth {} => 18^{} histories x 3 initial kinds", fdepth, fdepth),
+        &format!("depth {} => 24^{} histories x 3 initial kinds", fdepth, fdepth),
     );
     for init in inits {
         par_seqs(&mut e2, s1.len(), fdepth, budget, |seq, e| {
@@ -364,10 +369,10 @@ pub fn run(ctx: &Ctx) -> Vec<Eng> {
     let (hz, k) = if ctx.thorough { (48, 3) } else { (24, 2) };
     let mut e3 = Eng::new(
         "c11-deviations",
-        "all histories of exactly H events differing from the default stream P(0.5 s, alternating states) in at most k positions, deviations {N, E1, P(2 s), set(c) x 6}; 3 initial kinds (exercises long accumulation of the single and double integrals)",
+        "all histories of exactly H events differing from the default stream P(0.5 s, alternating states) in at most k positions, deviations {N, E1, P(2 s), set(c) x 9}; 3 initial kinds (exercises long accumulation of the single and double integrals)",
         &format!("H={} k={}", hz, k),
     );
-    let cases = deviation_cases(hz, 9, k);
+    let cases = deviation_cases(hz, 12, k);
     for init in inits {
         par_cases(&mut e3, &cases, budget, |c, e| {
             let mut h: Vec<Ev> = (0..hz).map(|i| Ev::P(S / 2, i % 2)).collect();
